@@ -164,6 +164,163 @@ fn user_refs(ast: &DeriveInput) -> Refs {
     r
 }
 
+
+// ---------------------------------------------------------------------------------------------------
+// structural summary of the generated EnumString code (translation of the real tokens into the shape of
+// the model's `from_str_code`): phf entries, match arms in order, fall-through, error type
+// ---------------------------------------------------------------------------------------------------
+fn variant_index(ast: &DeriveInput, id: &syn::Ident) -> Option<usize> {
+    if let syn::Data::Enum(e) = &ast.data { e.variants.iter().position(|v| &v.ident == id) } else { None }
+}
+fn param_of(e: &syn::Expr) -> Result<String, String> {
+    // Default::default()  |  some::path()
+    if let syn::Expr::Call(c) = e {
+        if !c.args.is_empty() { return Err("parameter call with arguments".into()); }
+        if let syn::Expr::Path(p) = &*c.func {
+            let s = path_str(&p.path);
+            return Ok(if s == "Default::default" || s == "::core::default::Default::default" { "d".to_string() } else { format!("w:{}", s) });
+        }
+    }
+    Err("unrecognised parameter expression".into())
+}
+fn target_of(ast: &DeriveInput, e: &syn::Expr) -> Result<String, String> {
+    match e {
+        syn::Expr::Path(p) => { let id = &p.path.segments.last().ok_or("empty path")?.ident; Ok(format!("v{}()", variant_index(ast, id).ok_or("unknown variant")?)) }
+        syn::Expr::Call(c) => {
+            let id = match &*c.func { syn::Expr::Path(p) => p.path.segments.last().ok_or("empty path")?.ident.clone(), _ => return Err("call of a non-path".into()) };
+            let ps: Result<Vec<String>, String> = c.args.iter().map(param_of).collect();
+            Ok(format!("v{}({})", variant_index(ast, &id).ok_or("unknown variant")?, ps?.join(",")))
+        }
+        syn::Expr::Struct(st) => {
+            let id = &st.path.segments.last().ok_or("empty path")?.ident;
+            let ps: Result<Vec<String>, String> = st.fields.iter().map(|f| param_of(&f.expr)).collect();
+            Ok(format!("v{}({})", variant_index(ast, id).ok_or("unknown variant")?, ps?.join(",")))
+        }
+        _ => Err("unrecognised arm body".into()),
+    }
+}
+fn lit_str_of(e: &syn::Expr) -> Option<String> {
+    if let syn::Expr::Lit(l) = e { if let syn::Lit::Str(s) = &l.lit { return Some(s.value()); } }
+    None
+}
+fn strip_result(e: &syn::Expr, which: &str) -> Option<syn::Expr> {
+    // ::core::result::Result::Ok(x) / Err(x)
+    if let syn::Expr::Call(c) = e {
+        if let syn::Expr::Path(p) = &*c.func {
+            if p.path.segments.last().map(|s| s.ident == which).unwrap_or(false) && c.args.len() == 1 { return Some(c.args[0].clone()); }
+        }
+    }
+    None
+}
+fn fall_of(ast: &DeriveInput, e: &syn::Expr) -> Result<String, String> {
+    if let Some(x) = strip_result(e, "Err") {
+        return match &x {
+            syn::Expr::Path(p) if p.path.segments.last().map(|s| s.ident == "VariantNotFound").unwrap_or(false) => Ok("notfound".to_string()),
+            syn::Expr::Call(c) => {
+                let ok_arg = c.args.len() == 1 && matches!(&c.args[0], syn::Expr::Path(p) if p.path.is_ident("s"));
+                if let (true, syn::Expr::Path(p)) = (ok_arg, &*c.func) { Ok(format!("custom:{}", path_str(&p.path))) } else { Err("unrecognised error expression".into()) }
+            }
+            _ => Err("unrecognised error expression".into()),
+        };
+    }
+    if let Some(x) = strip_result(e, "Ok") {
+        let is_s_into = |a: &syn::Expr| matches!(a, syn::Expr::MethodCall(m) if m.method == "into" && matches!(&*m.receiver, syn::Expr::Path(p) if p.path.is_ident("s")));
+        return match &x {
+            syn::Expr::Call(c) if c.args.len() == 1 && is_s_into(&c.args[0]) => {
+                if let syn::Expr::Path(p) = &*c.func { let id = &p.path.segments.last().ok_or("empty")?.ident; Ok(format!("default:v{}", variant_index(ast, id).ok_or("unknown variant")?)) } else { Err("bad default".into()) }
+            }
+            syn::Expr::Struct(st) if st.fields.len() == 1 && is_s_into(&st.fields[0].expr) => {
+                let id = &st.path.segments.last().ok_or("empty")?.ident;
+                let fname = match &st.fields[0].member { syn::Member::Named(n) => n.to_string(), syn::Member::Unnamed(i) => i.index.to_string() };
+                Ok(format!("default:v{}:{}", variant_index(ast, id).ok_or("unknown variant")?, fname))
+            }
+            _ => Err("unrecognised default expression".into()),
+        };
+    }
+    Err("unrecognised fall-through".into())
+}
+fn struct_from_str(ast: &DeriveInput, ts: proc_macro2::TokenStream) -> Result<String, String> {
+    let f: syn::File = syn::parse2(ts).map_err(|e| format!("tokens do not parse: {}", e))?;
+    let mut fromstr: Option<&syn::ItemImpl> = None;
+    let mut tryfrom_ok = false;
+    for it in &f.items {
+        if let syn::Item::Impl(im) = it {
+            if let Some((_, p, _)) = &im.trait_ {
+                let last = p.segments.last().map(|s| s.ident.to_string()).unwrap_or_default();
+                if last == "FromStr" { fromstr = Some(im); }
+                if last == "TryFrom" {
+                    // fn try_from(s: &str) -> .. { ::core::str::FromStr::from_str(s) }
+                    for ii in &im.items { if let syn::ImplItem::Fn(m) = ii { if m.sig.ident == "try_from" && m.block.stmts.len() == 1 {
+                        if let syn::Stmt::Expr(syn::Expr::Call(c), None) = &m.block.stmts[0] {
+                            if let syn::Expr::Path(p) = &*c.func { if path_str(&p.path).ends_with("FromStr::from_str") && c.args.len() == 1 { tryfrom_ok = true; } }
+                        } } } }
+                }
+            }
+        }
+    }
+    let im = fromstr.ok_or("no FromStr impl")?;
+    let mut errty = String::new();
+    let mut body: Option<&syn::Block> = None;
+    for ii in &im.items {
+        match ii {
+            syn::ImplItem::Type(t) if t.ident == "Err" => { if let syn::Type::Path(p) = &t.ty { errty = path_str(&p.path); } }
+            syn::ImplItem::Fn(m) if m.sig.ident == "from_str" => body = Some(&m.block),
+            _ => {}
+        }
+    }
+    let body = body.ok_or("no from_str")?;
+    let mut phf: Vec<String> = Vec::new();
+    let n = body.stmts.len();
+    if n == 0 { return Err("empty body".into()); }
+    for st in &body.stmts[..n - 1] {
+        match st {
+            syn::Stmt::Item(syn::Item::Static(s)) => {
+                if let syn::Expr::Macro(m) = &*s.expr {
+                    let arms = syn::parse::Parser::parse2(|input: syn::parse::ParseStream| {
+                        let mut v = Vec::new();
+                        while !input.is_empty() { let k: syn::LitStr = input.parse()?; input.parse::<syn::Token![=>]>()?; let e: syn::Expr = input.parse()?; let _ = input.parse::<syn::Token![,]>(); v.push((k, e)); }
+                        Ok(v) }, m.mac.tokens.clone()).map_err(|e| format!("phf_map! arguments: {}", e))?;
+                    for (k, e) in arms { phf.push(format!("{}:{}", hex(&k.value()), target_of(ast, &e)?)); }
+                } else { return Err("static without phf_map!".into()); }
+            }
+            syn::Stmt::Item(syn::Item::Use(_)) => {}
+            syn::Stmt::Expr(syn::Expr::If(_), _) => {}       // if let Some(value) = PHF.get(s).cloned() { return Ok(value); }
+            _ => return Err("unrecognised statement before the match".into()),
+        }
+    }
+    let last = match &body.stmts[n - 1] { syn::Stmt::Expr(e, None) => e, _ => return Err("no tail expression".into()) };
+    let mut arms: Vec<String> = Vec::new();
+    let fall: String;
+    let inner = strip_result(last, "Ok");
+    if let Some(syn::Expr::Match(m)) = inner.as_ref() {
+        let mut f2: Option<String> = None;
+        for a in &m.arms {
+            match (&a.pat, &a.guard) {
+                (syn::Pat::Lit(l), None) => { let lit = lit_str_of(&syn::Expr::Lit(l.clone())).ok_or("non-string literal pattern")?; arms.push(format!("E:{}:{}", hex(&lit), target_of(ast, &a.body)?)); }
+                (syn::Pat::Ident(_), Some((_, g))) => {
+                    if let syn::Expr::MethodCall(mc) = &**g {
+                        if mc.method == "eq_ignore_ascii_case" && mc.args.len() == 1 {
+                            let lit = lit_str_of(&mc.args[0]).ok_or("guard argument is not a literal")?;
+                            arms.push(format!("G:{}:{}", hex(&lit), target_of(ast, &a.body)?));
+                            continue;
+                        }
+                    }
+                    return Err("unrecognised guard".into());
+                }
+                (syn::Pat::Wild(_), None) => {
+                    if let syn::Expr::Return(r) = &*a.body { f2 = Some(fall_of(ast, r.expr.as_ref().ok_or("bare return")?)?); } else { return Err("wildcard arm is not a return".into()); }
+                }
+                _ => return Err("unrecognised arm pattern".into()),
+            }
+        }
+        fall = f2.ok_or("match without wildcard")?;
+    } else {
+        fall = fall_of(ast, last)?;
+    }
+    let ety = if errty.ends_with("ParseError") && errty != "PErr" { "strum" } else { "custom" };
+    Ok(format!("phf=[{}]|arms=[{}]|fall={}|errty={}|tryfrom={}", phf.join(";"), arms.join(";"), fall, ety, if tryfrom_ok { "delegates" } else { "other" }))
+}
+
 fn fnv(h: &mut u64, s: &str) { for b in s.bytes() { *h ^= b as u64; *h = h.wrapping_mul(0x100000001b3); } *h ^= 10; *h = h.wrapping_mul(0x100000001b3); }
 
 fn valid_ident(s: &str) -> bool {
@@ -214,6 +371,25 @@ fn main() {
                 }
                 if inblock > 0 { digests.push(format!("{:016x}", h)); }
                 format!("{}:{}", total, digests.join(","))
+            }
+            "struct" => {
+                // struct <n> <derive> <item source hex>: structural summary of the generated code
+                let src = unhex(parts[3]);
+                match syn::parse_str::<DeriveInput>(&src) {
+                    Err(e) => format!("HARNESS-ITEM-DOES-NOT-PARSE:{}", hex(&e.to_string())),
+                    Ok(ast) => {
+                        let derive = parts[2].to_string();
+                        match std::panic::catch_unwind(std::panic::AssertUnwindSafe(|| expand(&derive, &ast))) {
+                            Err(_) => "panic".to_string(),
+                            Ok(Err(e)) => format!("err:{}", hex(&e.to_string())),
+                            Ok(Ok(ts)) => match derive.as_str() {
+                                "EnumString" => match std::panic::catch_unwind(std::panic::AssertUnwindSafe(|| struct_from_str(&ast, ts))) {
+                                    Ok(Ok(s)) => s, Ok(Err(m)) => format!("unparsed:{}", m), Err(_) => "unparsed:panic in the token reader".to_string() },
+                                _ => "unparsed:no structural reader for this derive".to_string(),
+                            },
+                        }
+                    }
+                }
             }
             "expand" | "refs" => {
                 // expand <n> <derive> <item source hex>
